@@ -60,13 +60,11 @@ func tokenize(expr string) ([]string, error) {
 			start := i
 			i++ // Skip opening quote
 
-			// Find closing quote
+			// Find closing quote. A backslash is an ordinary character of a SQL
+			// string literal, as it is for the statement lexer: 'C:\' ends at
+			// the quote that follows the backslash.
 			for i < len(expr) && expr[i] != quote {
-				if expr[i] == '\\' && i+1 < len(expr) {
-					i += 2 // Skip escape character
-				} else {
-					i++
-				}
+				i++
 			}
 
 			if i >= len(expr) {
